@@ -37,6 +37,16 @@
    element of an rvalue argument being handed to a continuation as an lvalue, any number of
    moves of a value through library-owned temporaries (each object is moved from at most once
    while live; this is the reading taken of "moved at most once").
+   Round 3 (robustness): an object that was never constructed through a logged constructor
+   (a bitwise duplicate, garbage memory) is "untracked-object", a result whose recorded token
+   differs from the token the machine derived is "token-corrupt", arguments that are not live
+   when the call begins (they were built with library constructors) are
+   "argument-setup-corrupt", an exception escaping the traced call is
+   "undocumented-exception" (none of the driven calls is documented to throw for the inputs
+   used): all of these are caused by the code under test and are verdicts.
+   An argument may carry `xtoks`: tokens of tracked values held INSIDE an opaque rvalue
+   argument (a parser object) whose members cannot be walked; they count as rvalue tokens
+   for the copy rule only.
    Reasons starting with HARNESS are defects of the harness / log, never verdicts. *)
 EXTENDS Naturals, Sequences, FiniteSets
 
@@ -48,7 +58,9 @@ Range(s) == {s[i] : i \in DOMAIN s}
 
 ArgCat(S, o) == IF Known(S, o) /\ S.objs[o].arg # 0 THEN S.args[S.objs[o].arg].cat ELSE "none"
 IsLvalueElem(S, o) == ArgCat(S, o) \in {"lvalue", "clvalue"}
-RvalueToks(S) == UNION {Range(S.args[i].toks) : i \in {j \in DOMAIN S.args : S.args[j].cat = "rvalue"}}
+RvalueToks(S) == UNION {Range(S.args[i].toks) \cup Range(S.args[i].xtoks) :
+                           i \in {j \in DOMAIN S.args : S.args[j].cat = "rvalue"}}
+XToks(a) == IF "xtoks" \in DOMAIN a THEN a.xtoks ELSE <<>>
 AllArgToks(S) == UNION {Range(S.args[i].toks) : i \in DOMAIN S.args}
 Running(S) == S.phase = "run"
 InLib(S) == Running(S) /\ S.depth = 0
@@ -58,14 +70,14 @@ Put(f, k, v) == [x \in DOMAIN f \cup {k} |-> IF x = k THEN v ELSE f[x]]
 SetObjs(S, f) == [S EXCEPT !.objs = f]
 
 SrcWhy(S, o) ==  \* reading the value of o (source of a copy / move, value())
-  IF ~Known(S, o) THEN {"HARNESS-unknown-object"}
+  IF ~Known(S, o) THEN {"untracked-object"}
   ELSE IF ~Running(S) THEN {}
   ELSE IF S.objs[o].st = "moved" THEN {"read-after-move"}
   ELSE IF S.objs[o].st = "dead" THEN {"use-after-destroy"}
   ELSE {}
 
 DstWhy(S, o) ==  \* assigning to o
-  IF ~Known(S, o) THEN {"HARNESS-unknown-object"}
+  IF ~Known(S, o) THEN {"untracked-object"}
   ELSE IF ~Running(S) THEN {}
   ELSE (IF S.objs[o].st = "dead" THEN {"use-after-destroy"} ELSE {})
        \cup (IF IsLvalueElem(S, o) THEN {"lvalue-argument-modified"} ELSE {})
@@ -88,8 +100,8 @@ EndWhy(S, ev) ==
   IN
   IF ~Running(S) THEN {"HARNESS-end-without-begin"}
   ELSE IF S.depth # 0 THEN {"HARNESS-end-inside-continuation"}
-  ELSE IF unknown # {} THEN {"HARNESS-unknown-object"}
-  ELSE IF \E i \in DOMAIN res : S.objs[res[i].obj].tok # res[i].tok THEN {"HARNESS-token-mismatch"}
+  ELSE IF unknown # {} THEN {"untracked-object"}
+  ELSE IF \E i \in DOMAIN res : S.objs[res[i].obj].tok # res[i].tok THEN {"token-corrupt"}
   ELSE IF Len(ev.args) # Len(S.args) THEN {"HARNESS-argument-count"}
   ELSE
     (IF \E i \in DOMAIN res : S.objs[res[i].obj].st # "live"
@@ -105,7 +117,7 @@ EndWhy(S, ev) ==
                /\ \/ ev.args[i].objs # S.args[i].objs
                   \/ \E k \in DOMAIN S.args[i].objs :
                        LET o == S.args[i].objs[k] IN
-                       S.objs[o].st # "live" \/ S.objs[o].tok # S.args[i].toks[k]
+                       ~Known(S, o) \/ S.objs[o].st # "live" \/ S.objs[o].tok # S.args[i].toks[k]
           THEN {"lvalue-argument-modified"} ELSE {})
 
 Why(S, ev) ==
@@ -115,7 +127,7 @@ Why(S, ev) ==
          IF S.phase # "setup" THEN {"HARNESS-begin-twice"}
          ELSE IF \E i \in DOMAIN ev.args : \E k \in DOMAIN ev.args[i].objs :
                    LET o == ev.args[i].objs[k] IN ~Known(S, o) \/ S.objs[o].st # "live"
-         THEN {"HARNESS-PRECONDITION"}
+         THEN {"argument-setup-corrupt"}
          ELSE {}
     [] ev.e = "copy" ->
          CopyWhy(S, ev.src) \cup (IF Known(S, ev.dst) THEN {"HARNESS-id-reuse"} ELSE {})
@@ -125,16 +137,17 @@ Why(S, ev) ==
     [] ev.e = "move_assign" -> MoveWhy(S, ev.src) \cup DstWhy(S, ev.dst)
     [] ev.e = "read" -> SrcWhy(S, ev.obj)
     [] ev.e = "destroy" ->
-         IF ~Known(S, ev.obj) THEN {"HARNESS-unknown-object"}
+         IF ~Known(S, ev.obj) THEN {"untracked-object"}
          ELSE (IF S.objs[ev.obj].st = "dead" THEN {"double-destroy"} ELSE {})
               \cup (IF Running(S) /\ IsLvalueElem(S, ev.obj) THEN {"lvalue-argument-modified"} ELSE {})
     [] ev.e = "cb_enter" ->
-         IF \E i \in DOMAIN ev.recv : ~Known(S, ev.recv[i].obj) THEN {"HARNESS-unknown-object"}
+         IF \E i \in DOMAIN ev.recv : ~Known(S, ev.recv[i].obj) THEN {"untracked-object"}
          ELSE IF Running(S) /\ \E i \in DOMAIN ev.recv :
                    ev.recv[i].cat = "rvalue" /\ IsLvalueElem(S, ev.recv[i].obj)
          THEN {"lvalue-element-passed-as-rvalue"} ELSE {}
     [] ev.e = "cb_exit" -> IF S.depth = 0 THEN {"HARNESS-cb-exit-without-enter"} ELSE {}
     [] ev.e = "end" -> EndWhy(S, ev)
+    [] ev.e = "throw" -> IF S.phase = "done" THEN {} ELSE {"undocumented-exception"}
     [] ev.e = "reset" -> {}
     [] OTHER -> {"HARNESS-unknown-event"}
 
@@ -142,14 +155,18 @@ Why(S, ev) ==
 Eff(S, ev) ==
   CASE ev.e = "new" -> SetObjs(S, Put(S.objs, ev.obj, NewObj(S, ev.obj, ev.tok, S.depth > 0)))
     [] ev.e = "begin" ->
-         IF "HARNESS-PRECONDITION" \in Why(S, ev) \/ S.phase # "setup" THEN S
+         \* arguments that are not live / not tracked are a verdict (argument-setup-corrupt); the call
+         \* is judged all the same (unknown objects have token 0)
+         IF S.phase # "setup" THEN S
          ELSE LET argOf(o) == IF \E i \in DOMAIN ev.args : o \in Range(ev.args[i].objs)
                               THEN CHOOSE i \in DOMAIN ev.args : o \in Range(ev.args[i].objs) ELSE 0
               IN [S EXCEPT
                     !.objs = [o \in DOMAIN S.objs |-> [S.objs[o] EXCEPT !.arg = argOf(o)]],
                     !.args = [i \in DOMAIN ev.args |->
                                 [cat |-> ev.args[i].cat, objs |-> ev.args[i].objs,
-                                 toks |-> [k \in DOMAIN ev.args[i].objs |-> S.objs[ev.args[i].objs[k]].tok]]],
+                                 toks |-> [k \in DOMAIN ev.args[i].objs |->
+                                             IF Known(S, ev.args[i].objs[k]) THEN S.objs[ev.args[i].objs[k]].tok ELSE 0],
+                                 xtoks |-> XToks(ev.args[i])]],
                     !.phase = "run", !.keeps = ev.keeps, !.op = ev.op, !.depth = 0]
     [] ev.e = "copy" ->
          IF ~Known(S, ev.src) THEN S
@@ -174,6 +191,7 @@ Eff(S, ev) ==
     [] ev.e = "cb_enter" -> [S EXCEPT !.depth = @ + 1]
     [] ev.e = "cb_exit" -> [S EXCEPT !.depth = IF @ > 0 THEN @ - 1 ELSE 0]
     [] ev.e = "end" -> [S EXCEPT !.phase = "done", !.depth = 0]
+    [] ev.e = "throw" -> [S EXCEPT !.phase = "done", !.depth = 0]
     [] ev.e = "reset" -> [InitS EXCEPT !.op = ev.op]
     [] OTHER -> S
 =============================================================================
